@@ -139,6 +139,29 @@ func init() {
 				}
 			})
 	}
+	I["io.LimitReader"] = func(c *icall) ([]*State, bool) {
+		src := c.args[0].(IfaceV)
+		n, ok := c.args[1].(IntV)
+		sp, ok2 := src.V.(PtrV)
+		if !ok || !n.C || !ok2 || sp.Obj == 0 {
+			panic(engineErr("io.LimitReader: only a concrete limit over a modelled reader"))
+		}
+		o, ok := c.s.load(sp).(OpaqueObj)
+		if !ok || o.Kind != "gzip.Reader" {
+			panic(engineErr("io.LimitReader: only over a gzip.Reader"))
+		}
+		plain := o.Data.(StrV)
+		// the first n bytes: the whole content when it is short enough, else a proper prefix
+		lim := plain
+		if !(plain.K == SLit && int64(len(plain.S)) <= n.N) {
+			pt := plain.term()
+			ln := strLen(plain).T
+			lim = opaqueStr(tIte("(<= "+ln+" "+n.T+")", pt, "(str.substr "+pt+" 0 "+n.T+")"))
+		}
+		p := c.s.alloc(OpaqueObj{Kind: "gzip.Reader", Data: lim})
+		c.set(IfaceV{Typ: src.Typ, V: p})
+		return nil, false
+	}
 	I["io.Copy"] = func(c *icall) ([]*State, bool) {
 		dst, src := c.args[0].(IfaceV), c.args[1].(IfaceV)
 		dp, ok1 := dst.V.(PtrV)
